@@ -22,13 +22,18 @@
 
     [C01_bash_meaning_literal] and [C01_bash_meaning_toplevel] (below) prove the statement about the
     script itself -- [BashSem.run_from Repaired] on [Tables.all_tables Bash (Driver.compile_valid v)]
-    against [Meaning.complete] -- for all trees without within-word expressions.  The general
-    statement [C01_bash_meaning_statement] (within-word items included) is NOT proved. *)
+    against [Meaning.complete] -- for all trees without within-word expressions, and
+    [C01_bash_meaning_subword] for trees whose leaves are literals and within-word expressions made
+    of literals (the within-word functions of the script interpreted directly), under two side
+    conditions on the compiled automaton that have decidable sufficient forms
+    ([C01_subword_side_conditions]).  The general statement [C01_bash_meaning_statement] (commands
+    and undefined nonterminals inside words, within-word items next to commands) is NOT proved. *)
 From CG Require Import Model.Dfa Model.Tables Model.Glob Model.BashSem Model.Driver.
 From CG Require Import Base.Prelude Model.Ast Model.Check Spec.Rx Spec.Meaning Spec.KnownC01 Spec.Domain
      Proofs.RxFacts Proofs.MeaningFacts Proofs.MeaningLevels Proofs.DomainFacts.
 From CG Require Import Proofs.TreeFacts Proofs.GlobFacts Proofs.StripFacts Proofs.BashMeaningLit Proofs.LangBridge Proofs.C01Layers.
 From CG Require Import Spec.Invocations.
+From CG Require Import Proofs.SubTreeFacts Proofs.BashMeaningSub Proofs.SubChecks.
 
 (** The full statement: the interpreter of the script of /repo HEAD on the tables of the model
     pipeline against the specification, for every validated tree in the decided domain -- within-word
@@ -298,6 +303,92 @@ Example ex_C01_toplevel_layer_inhabited :
   end.
 Proof. vm_compute. repeat split; reflexivity. Qed.
 Print Assumptions ex_C01_toplevel_layer_inhabited.
+
+(** Layer (c): literals and within-word expressions made of literals. *)
+Theorem C01_bash_meaning_subword :
+  forall pick fuel v c om os nd a (benv : BashSem.env) (en : Meaning.env) ws p,
+    subw_tree (v_expr v) = true -> alts_nonempty (v_expr v) = true ->
+    compile_valid pick fuel v = Ok c ->
+    all_tables Bash c om os = Ok (nd, a) -> NoDup om -> valid_literal_order (c_main c) om = true ->
+    sub_orders_ok c os -> subs_deterministic c ->
+    C01_domain (v_expr v) = true ->
+    BashSem.e_ignore_case benv = false -> BashSem.e_wordbreaks benv = Meaning.e_wordbreaks en ->
+    breaks_ok (BashSem.e_wordbreaks benv) = true -> plain p = true -> printable_str p = true ->
+    ambiguous_run en (start (v_expr v)) ws = false ->
+    match complete (v_expr v) en ws p with
+    | None => run_from Repaired (d_start (c_main c)) a benv ws p = Ok (mkresult 1 [] [])
+    | Some (req, al) =>
+        exists reply, run_from Repaired (d_start (c_main c)) a benv ws p = Ok (mkresult 0 reply [])
+                      /\ (forall x, In x reply <-> In x req) /\ incl req al
+    end.
+Proof. exact bash_meaning_subword. Qed.
+Check C01_bash_meaning_subword :
+  forall pick fuel v c om os nd a (benv : BashSem.env) (en : Meaning.env) ws p,
+    subw_tree (v_expr v) = true -> alts_nonempty (v_expr v) = true ->
+    compile_valid pick fuel v = Ok c ->
+    all_tables Bash c om os = Ok (nd, a) -> NoDup om -> valid_literal_order (c_main c) om = true ->
+    sub_orders_ok c os -> subs_deterministic c ->
+    C01_domain (v_expr v) = true ->
+    BashSem.e_ignore_case benv = false -> BashSem.e_wordbreaks benv = Meaning.e_wordbreaks en ->
+    breaks_ok (BashSem.e_wordbreaks benv) = true -> plain p = true -> printable_str p = true ->
+    ambiguous_run en (start (v_expr v)) ws = false ->
+    match complete (v_expr v) en ws p with
+    | None => run_from Repaired (d_start (c_main c)) a benv ws p = Ok (mkresult 1 [] [])
+    | Some (req, al) =>
+        exists reply, run_from Repaired (d_start (c_main c)) a benv ws p = Ok (mkresult 0 reply [])
+                      /\ (forall x, In x reply <-> In x req) /\ incl req al
+    end.
+Print Assumptions C01_bash_meaning_subword.
+
+(** The two side conditions have decidable sufficient forms: the orders are checked one by one, and
+    an input pool that names at most one within-word automaton per level is deterministic. *)
+Theorem C01_subword_side_conditions :
+  forall c os,
+    (sub_orders_okb c os = true -> sub_orders_ok c os)
+    /\ (NoDup (d_inputs (c_main c)) -> subs_single c = true -> subs_deterministic c).
+Proof. intros c os. split; [apply sub_orders_okb_sound | apply subs_single_sound]. Qed.
+Check C01_subword_side_conditions :
+  forall c os,
+    (sub_orders_okb c os = true -> sub_orders_ok c os)
+    /\ (NoDup (d_inputs (c_main c)) -> subs_single c = true -> subs_deterministic c).
+Print Assumptions C01_subword_side_conditions.
+
+(** Inhabited: [cmd (add || --k=(x|yz)) end;] through the whole model pipeline. *)
+Definition exs_e : expr :=
+  Sequence [Fallback [Terminal "add" None 0 exl_sp;
+                      Subword (Sequence [Terminal "--k=" None 1 exl_sp;
+                                         Alternative [Terminal "x" None 1 exl_sp; Terminal "yz" None 1 exl_sp] exl_sp] exl_sp)
+                              1 exl_sp] exl_sp;
+            Terminal "end" None 0 exl_sp] exl_sp.
+Definition exs_v := mkvalid "cmd" exs_e [] [] [].
+Definition exs_om := [("end", ""); ("add", "")]%string.
+Definition exs_os := [(0, [("--k=", ""); ("yz", ""); ("x", "")])]%string.
+Definition exs_benv := BashSem.mkenv bash_default_wordbreaks [] false.
+Definition exs_en := Meaning.mkenv bash_default_wordbreaks [].
+
+Example ex_C01_subword_layer_inhabited :
+  match compile_valid (fun _ _ => O) 100 exs_v with
+  | Ok c =>
+      match all_tables Bash c exs_om exs_os with
+      | Ok (nd, a) =>
+          subw_tree exs_e = true /\ alts_nonempty exs_e = true /\ valid_literal_order (c_main c) exs_om = true
+          /\ nodup_pairs exs_om = true /\ sub_orders_okb c exs_os = true /\ subs_single c = true
+          /\ C01_domain exs_e = true
+          /\ ambiguous_run exs_en (start exs_e) ["--k=yz"; "end"]%string = false
+          /\ run_from Repaired (d_start (c_main c)) a exs_benv [] "--" = Ok (mkresult 0 ["--k="] [])
+          /\ complete exs_e exs_en [] "--" = Some (["--k="], ["--k="])
+          /\ run_from Repaired (d_start (c_main c)) a exs_benv [] "--k=" = Ok (mkresult 0 ["yz"; "x"] [])
+          /\ complete exs_e exs_en [] "--k=" = Some (["x"; "yz"], ["x"; "yz"; ""])
+          /\ run_from Repaired (d_start (c_main c)) a exs_benv ["--k=yz"] "" = Ok (mkresult 0 ["end "] [])
+          /\ complete exs_e exs_en ["--k=yz"] "" = Some (["end "], ["end "])
+          /\ run_from Repaired (d_start (c_main c)) a exs_benv ["--k="] "" = Ok (mkresult 1 [] [])
+          /\ complete exs_e exs_en ["--k="] "" = None
+      | _ => False
+      end
+  | _ => False
+  end.
+Proof. vm_compute. repeat split; reflexivity. Qed.
+Print Assumptions ex_C01_subword_layer_inhabited.
 
 (** Non-vacuity: a grammar with two || levels, a within-word expression and a command is inside
     the domain, and the specification computes the answers one expects from the README. *)
